@@ -73,6 +73,70 @@ def reparse(kind, text, flags):
         return ("internal:" + type(e).__name__, repr(e)[:200])
 
 
+CONTEXT = {"Field", "FragmentSpread", "InlineFragment", "SelectionSet", "Directive", "Argument"}
+
+
+def context_reparse(kind, piece, flags):
+    """parse() on the minimal context around `piece`; ('ok', wrapped, node dict, prefix length, True | what is odd) or
+    (error class, wrapped, ...). LF before the closing part: it ends nothing but satisfies every follow restriction."""
+    from py_gql.lang import parser as P
+    from py_gql.lang import ast as A
+    from py_gql.exc import GraphQLSyntaxError
+    if kind == "SelectionSet":
+        pre, post = "", ""
+    elif kind in ("Field", "FragmentSpread", "InlineFragment"):
+        pre, post = "{ ", "\n}"
+    elif kind == "Directive":
+        pre, post = "{ a ", "\n}"
+    elif kind == "Argument":
+        pre, post = "{ a(", "\n)}"
+    else:
+        pre, post = "", "\nscalar A"
+    wrapped = pre + piece + post
+    try:
+        doc = P.parse(wrapped, **flags)
+    except GraphQLSyntaxError as e:
+        return ("syntax", wrapped, e.position)
+    except Exception as e:  # noqa
+        return ("internal:" + type(e).__name__, wrapped, repr(e)[:200])
+    odd = True
+    try:
+        if len(doc.definitions) != 1 or doc.loc != (0, len(wrapped)):
+            odd = "document"
+        d0 = doc.definitions[0]
+        if kind == "StringValue":
+            node = d0.description
+            if not (isinstance(d0, A.ScalarTypeDefinition) and d0.name.value == "A" and not d0.directives
+                    and d0.loc == (0, len(wrapped))):
+                odd = "scalar"
+        else:
+            ss = d0.selection_set
+            if not (isinstance(d0, A.OperationDefinition) and d0.operation == "query" and d0.name is None
+                    and not d0.variable_definitions and not d0.directives and ss.loc == (0, len(wrapped)) == d0.loc):
+                odd = "shorthand"
+            if kind == "SelectionSet":
+                node = ss
+            else:
+                if len(ss.selections) != 1:
+                    odd = "selections"
+                f = ss.selections[0]
+                if kind == "Directive":
+                    node = f.directives[0]
+                    if not (len(f.directives) == 1 and not f.arguments and f.alias is None and f.selection_set is None
+                            and f.name.value == "a" and f.name.loc == (2, 3) and f.loc == (2, 4 + len(piece))):
+                        odd = "field"
+                elif kind == "Argument":
+                    node = f.arguments[0]
+                    if not (len(f.arguments) == 1 and not f.directives and f.alias is None and f.selection_set is None
+                            and f.name.value == "a" and f.name.loc == (2, 3) and f.loc == (2, 6 + len(piece))):
+                        odd = "field"
+                else:
+                    node = f
+        return ("ok", wrapped, node.to_dict(), len(pre), odd)
+    except Exception as e:  # noqa  (the document does not have the expected shape at all)
+        return ("shape:" + type(e).__name__, wrapped, repr(e)[:200])
+
+
 def shift(d, off):
     if isinstance(d, dict):
         return {k: ((v[0] + off, v[1] + off) if k == "loc" and v is not None else shift(v, off)) for k, v in d.items()}
@@ -201,6 +265,28 @@ def check_tree(ctx, text, entry, flags, root, origin):
             ctx.fail("span-reparses-to-different-node:%s:%s" % (kind, cp.first_diff(cp.canon(want), cp.canon(shift(got, a)))),
                      "the text of a node's span parses back to a different node", det(n, piece=piece))
             ok = False
+        # ... and, for the node kinds without an entry point of their own, THROUGH THE PUBLIC `parse` ENTRY POINT inside the
+        # minimal context (Props/C02_reparse_ctx.lean: span_reparse_selection / _selection_set / _directive / _argument /
+        # _description): the wrapped text parses to a document containing an equal node modulo the offset of the context
+        if kind in CONTEXT or (kind == "StringValue" and flags.get("allow_type_system")):
+            cg = context_reparse(kind, piece, flags)
+            ctx.count()
+            ctx.stat("context-reparse=%s" % kind)
+            if cg[0] != "ok":
+                ctx.fail("context-reparse-fails:%s:%s" % (kind, cg[0].split(":")[0]),
+                         "the text of a node's span, wrapped in its minimal context, is not accepted by parse()",
+                         det(n, piece=piece, wrapped=cg[1], error=list(cg[2:])))
+                ok = False
+            elif shift(cg[2], a - cg[3]) != want:
+                ctx.fail("context-reparse-differs:%s:%s" % (kind, cp.first_diff(cp.canon(want), cp.canon(shift(cg[2], a - cg[3])))),
+                         "the text of a node's span, wrapped in its minimal context, parses to a document that does not "
+                         "contain an equal node (modulo the offset)", det(n, piece=piece, wrapped=cg[1]))
+                ok = False
+            elif cg[4] is not True:
+                ctx.fail("context-reparse-shape:%s:%s" % (kind, cg[4]),
+                         "the document parsed from the wrapped text is not the minimal context around the node",
+                         det(n, piece=piece, wrapped=cg[1]))
+                ok = False
         if len(kids) >= 1 or b - a >= 2:
             ctx.nontrivial((kind, piece))
     return ok
